@@ -297,6 +297,18 @@ def run_delegation_script(script, variant=0):
                     pools.add_pool(pool=pl)
                 pools.build_index_by_delegation_id()
                 nd = pools.generate_delegations_by_node_id()
+                if o.get("single", "none") != "none":
+                    # every node also carries a single-resource delegation of its own, listed first / last
+                    nd2 = {}
+                    for n, dels in nd.items():
+                        own = Delegation(atype=at, delegation_id="del0")
+                        own.set_details(_details(tn, "d2", variant))
+                        ds = Delegations(atype=at)
+                        seq = list(dels.delegations.values())
+                        for d in ([own] + seq if o["single"] == "first" else seq + [own]):
+                            ds.add_delegations(d)
+                        nd2[n] = ds
+                    nd = nd2
                 nodes = {}
                 p2 = Pools(atype=at)
                 for n, dels in nd.items():
@@ -353,7 +365,30 @@ def run_delegation_script(script, variant=0):
                 p2.validate_pools()
                 back = {pid: {"del": p.get_delegation_id(), "on": p.get_defined_on(), "for": sorted(p.get_defined_for()),
                               "det": _det_name(tn, p.get_pool_details(), variant)} for pid, p in p2.pool_by_id.items()}
-                res = {"k": "pools", "nodes": nodes, "back": back}
+                # regrouping by delegation id (one model per id)
+                other_pn = "LabelDelegations" if tn == "CAPACITY" else "CapacityDelegations"
+                adms, other_absent = {}, True
+                for did, ag in arm.generate_adms().items():
+                    ent = {}
+                    for n in ag.list_all_node_ids():
+                        _, props = ag.get_node_properties(node_id=n)
+                        if props.get(other_pn) not in (None, "", "None"):
+                            other_absent = False
+                        got = ag.get_delegations(node_id=n, delegation_type=at) if hasattr(ag, "get_delegations") else None
+                        if got is None:
+                            from fim.slivers.delegations import Delegations as _D
+                            txt = props.get("CapacityDelegations" if tn == "CAPACITY" else "LabelDelegations")
+                            got = _D.from_json(json_str=txt, atype=at) if txt not in (None, "", "None") else None
+                        if got is None:
+                            continue
+                        for k2, d in got.delegations.items():
+                            if k2 == did:
+                                ent[n] = {"fmt": RFMT[d.get_format()], "pool": d.get_pool_name() or "", "det": _det_name(tn, d.get_details(), variant)}
+                            else:
+                                ent[n + "?" + k2] = {"fmt": "foreign", "pool": "", "det": ""}
+                    adms[did] = ent
+                    ag.delete_graph()
+                res = {"k": "pools", "nodes": nodes, "back": back, "adms": adms, "other_type_absent": other_absent}
                 imp.delete_all_graphs()
         except Exception as e:  # noqa
             out, res = type(e).__name__, {"k": "none"}
